@@ -1305,3 +1305,151 @@ example :
   · simp [CgP.init, cgReal, lincomb]
 
 end
+
+/-! ### ROUND 4: Douglas–Rachford primal–dual WITH the `l` terms (`proxLc = some …`, the executed branch
+`if l is not None: prox_cc_l[i](sigma[i])(z2i, out=z2i)`) -/
+
+section
+variable {X Y : Type} [AddCommGroup X] [Module ℝ X] [AddCommGroup Y] [Module ℝ Y]
+
+/-- `douglas_rachford_pd(…, l=[…])` (`m ≥ 1` linear operators, constant `lam ≠ 0`): if the loop body
+leaves the governing pair `(x, v)` unchanged, the point `p1` shown to the callback / returned and the
+dual points `p2_i` satisfy the optimality conditions of `min f(x) + Σ (g_i □ l_i)(L_i x)`:
+`−Σ L_i* p2_i ∈ ∂f(p1)` and `L_i p1 ∈ ∂g_i*(p2_i) + ∂l_i*(p2_i)` (an element of each, summing to
+`L_i p1`).  Resolvent algebra as the other `*_fixed_point*` theorems (arbitrary maps related by `IsProx`). -/
+theorem C12.douglas_rachford_pd_l_fixed_point (m : Nat) (hm : m ≠ 0) (L : Nat → X →ₗ[ℝ] Y)
+    (Lt : Nat → Y →ₗ[ℝ] X) (proxF : X → X) (proxGc proxLc : Nat → Y → Y) (τ lam : ℝ) (σ : Nat → ℝ)
+    (hτ : τ ≠ 0) (hlam : lam ≠ 0) (hσ : ∀ i, σ i ≠ 0) (subF : X → Set X)
+    (subGc subLc : Nat → Y → Set Y)
+    (hF : IsProx proxF τ subF) (hG : ∀ i, IsProx (proxGc i) (σ i) (subGc i))
+    (hL : ∀ i, IsProx (proxLc i) (σ i) (subLc i))
+    (zeroV : X) (s : DrS X Y)
+    (hx : (DrP.step ⟨m, fun i => ⇑(L i), fun i => ⇑(Lt i), proxF, proxGc, τ, σ, lam, some proxLc⟩ zeroV s).x = s.x)
+    (hv : ∀ i, (DrP.step ⟨m, fun i => ⇑(L i), fun i => ⇑(Lt i), proxF, proxGc, τ, σ, lam, some proxLc⟩ zeroV s).v i = s.v i) :
+    let P : DrP ℝ X Y := ⟨m, fun i => ⇑(L i), fun i => ⇑(Lt i), proxF, proxGc, τ, σ, lam, some proxLc⟩
+    let p1 := (P.half s).1
+    let w1 := (P.half s).2.1
+    let p2 : Nat → Y := fun i => proxGc i (lincomb 1 (s.v i) (σ i / 2) (L i w1));
+    (-(sumAdj (fun i => ⇑(Lt i)) p2 (m - 1)) ∈ subF p1) ∧
+      ∀ i, ∃ a ∈ subGc i (p2 i), ∃ c ∈ subLc i (p2 i), a + c = L i p1 := by
+  intro P p1 w1 p2
+  simp only [DrP.step, DrP.half, hm, if_false] at hx hv
+  set S := sumAdj (fun i => ⇑(Lt i)) s.v (m - 1) with hS
+  set z0 := lincomb (1 : ℝ) s.x (-τ / 2) S with hz0
+  have hp1 : p1 = proxF z0 := by simp only [p1, P, DrP.half, hm, if_false, hz0, hS]
+  have hw1 : w1 = lincomb (2 : ℝ) p1 (-(1 : ℝ)) s.x := by
+    simp only [w1, p1, P, DrP.half, hm, if_false]
+  rw [← hp1] at hx hv
+  rw [← hw1] at hx hv
+  change ∀ i, lincomb 1 (lincomb 1 (s.v i) lam (proxLc i (lincomb 1 (lincomb 2 (p2 i) (-(1 : ℝ)) (s.v i)) (σ i / 2)
+      ((L i) (lincomb 2 (lincomb 1 w1 (-τ / 2) (sumAdj (fun i => ⇑(Lt i)) (fun i => lincomb 2 (p2 i) (-(1 : ℝ)) (s.v i)) (m - 1))) (-(1 : ℝ)) w1)))))
+      (-lam) (p2 i) = s.v i at hv
+  change lincomb 1 (lincomb 1 s.x (-lam) p1) lam (lincomb 1 w1 (-τ / 2)
+      (sumAdj (fun i => ⇑(Lt i)) (fun i => lincomb 2 (p2 i) (-(1 : ℝ)) (s.v i)) (m - 1))) = s.x at hx
+  rw [sumAdj_lin] at hx hv
+  set Pp := sumAdj (fun i => ⇑(Lt i)) p2 (m - 1) with hPp
+  have hz1 : lincomb (1 : ℝ) w1 (-τ / 2) ((2 : ℝ) • Pp + (-(1 : ℝ)) • S) = p1 := by
+    have : lam • (lincomb (1 : ℝ) w1 (-τ / 2) ((2 : ℝ) • Pp + (-(1 : ℝ)) • S) - p1) = 0 := by
+      simp only [lincomb] at hx ⊢
+      linear_combination (norm := module) hx
+    rcases smul_eq_zero.mp this with h | h
+    · exact absurd h hlam
+    · exact sub_eq_zero.mp h
+  rw [hz1] at hv
+  have hxe : s.x = p1 - (τ / 2) • ((2 : ℝ) • Pp - S) := by
+    simp only [lincomb, hw1] at hz1
+    linear_combination (norm := module) (-(1 : ℝ)) • hz1
+  have hr1 : lincomb (2 : ℝ) p1 (-(1 : ℝ)) w1 = s.x := by simp only [lincomb, hw1]; module
+  rw [hr1] at hv
+  -- the `l` proximal returns `p2`
+  have hz2 : ∀ i, proxLc i (lincomb 1 (lincomb 2 (p2 i) (-(1 : ℝ)) (s.v i)) (σ i / 2) (L i s.x)) = p2 i := by
+    intro i
+    have h1 := hv i
+    have : lam • (proxLc i (lincomb 1 (lincomb 2 (p2 i) (-(1 : ℝ)) (s.v i)) (σ i / 2) (L i s.x)) - p2 i) = 0 := by
+      simp only [lincomb] at h1 ⊢
+      linear_combination (norm := module) h1
+    rcases smul_eq_zero.mp this with h | h
+    · exact absurd h hlam
+    · exact sub_eq_zero.mp h
+  constructor
+  · have h1 := (hF z0 p1).mp hp1.symm
+    have e : τ⁻¹ • (z0 - p1) = -Pp := by
+      have : z0 - p1 = (-τ) • Pp := by
+        simp only [hz0, lincomb]
+        linear_combination (norm := module) hxe
+      rw [this, smul_smul, mul_neg, inv_mul_cancel₀ hτ, neg_smul, one_smul]
+    rw [e] at h1; exact h1
+  · intro i
+    refine ⟨_, (hG i (lincomb 1 (s.v i) (σ i / 2) (L i w1)) (p2 i)).mp rfl, _,
+      (hL i _ (p2 i)).mp (hz2 i), ?_⟩
+    rw [← smul_add]
+    have : lincomb (1 : ℝ) (s.v i) (σ i / 2) (L i w1) - p2 i +
+        (lincomb 1 (lincomb 2 (p2 i) (-(1 : ℝ)) (s.v i)) (σ i / 2) (L i s.x) - p2 i) = (σ i) • L i p1 := by
+      simp only [lincomb, hw1, map_add, map_smul]
+      module
+    rw [this, smul_smul, inv_mul_cancel₀ (hσ i), one_smul]
+
+/-- Converse with `l`: a KKT triple `(p1, p2, a + c = L p1)` together with a governing pair `(x, v)`
+solving `x = p1 − τ/2 Σ L_i*(2 p2_i − v_i)`, `v_i = p2_i + σ_i/2 L_i x − σ_i c_i` is left unchanged by
+the loop body, which shows exactly `p1` to the callback.  (Existence of the governing pair for a
+given KKT triple is NOT proved, as for `l = None`.) -/
+theorem C12.douglas_rachford_pd_l_fixed_point_converse_partial (m : Nat) (hm : m ≠ 0) (L : Nat → X →ₗ[ℝ] Y)
+    (Lt : Nat → Y →ₗ[ℝ] X) (proxF : X → X) (proxGc proxLc : Nat → Y → Y) (τ lam : ℝ) (σ : Nat → ℝ)
+    (hτ : τ ≠ 0) (hσ : ∀ i, σ i ≠ 0) (subF : X → Set X) (subGc subLc : Nat → Y → Set Y)
+    (hF : IsProx proxF τ subF) (hG : ∀ i, IsProx (proxGc i) (σ i) (subGc i))
+    (hL : ∀ i, IsProx (proxLc i) (σ i) (subLc i))
+    (zeroV : X) (s : DrS X Y) (p1 : X) (p2 a c : Nat → Y)
+    (hk1 : -(sumAdj (fun i => ⇑(Lt i)) p2 (m - 1)) ∈ subF p1)
+    (hka : ∀ i, a i ∈ subGc i (p2 i)) (hkc : ∀ i, c i ∈ subLc i (p2 i))
+    (hk2 : ∀ i, a i + c i = L i p1)
+    (hgx : s.x = p1 - (τ / 2) • sumAdj (fun i => ⇑(Lt i)) (fun i => lincomb (2 : ℝ) (p2 i) (-(1 : ℝ)) (s.v i)) (m - 1))
+    (hgv : ∀ i, s.v i = p2 i + (σ i / 2) • L i s.x - σ i • c i) :
+    (DrP.step ⟨m, fun i => ⇑(L i), fun i => ⇑(Lt i), proxF, proxGc, τ, σ, lam, some proxLc⟩ zeroV s).x = s.x ∧
+    (∀ i, (DrP.step ⟨m, fun i => ⇑(L i), fun i => ⇑(Lt i), proxF, proxGc, τ, σ, lam, some proxLc⟩ zeroV s).v i = s.v i) ∧
+    (DrP.step ⟨m, fun i => ⇑(L i), fun i => ⇑(Lt i), proxF, proxGc, τ, σ, lam, some proxLc⟩ zeroV s).p1 = p1 := by
+  rw [sumAdj_lin] at hgx
+  set Pp := sumAdj (fun i => ⇑(Lt i)) p2 (m - 1) with hPp
+  set S := sumAdj (fun i => ⇑(Lt i)) s.v (m - 1) with hS
+  have hp1 : proxF (lincomb (1 : ℝ) s.x (-τ / 2) S) = p1 := by
+    apply (hF _ _).mpr
+    have : lincomb (1 : ℝ) s.x (-τ / 2) S - p1 = (-τ) • Pp := by
+      simp only [lincomb]; linear_combination (norm := module) hgx
+    rw [this, smul_smul, mul_neg, inv_mul_cancel₀ hτ, neg_smul, one_smul]; exact hk1
+  have hp2 : ∀ i, proxGc i (lincomb (1 : ℝ) (s.v i) (σ i / 2) (L i (lincomb (2 : ℝ) p1 (-(1 : ℝ)) s.x))) = p2 i := by
+    intro i
+    apply (hG i _ _).mpr
+    have : lincomb (1 : ℝ) (s.v i) (σ i / 2) (L i (lincomb (2 : ℝ) p1 (-(1 : ℝ)) s.x)) - p2 i = (σ i) • a i := by
+      have ha : a i = L i p1 - c i := by rw [← hk2 i]; abel
+      rw [ha]
+      simp only [lincomb, map_add, map_smul]; linear_combination (norm := module) hgv i
+    rw [this, smul_smul, inv_mul_cancel₀ (hσ i), one_smul]; exact hka i
+  have hpl : ∀ i, proxLc i (lincomb (1 : ℝ) (lincomb (2 : ℝ) (p2 i) (-(1 : ℝ)) (s.v i)) (σ i / 2) (L i s.x)) = p2 i := by
+    intro i
+    apply (hL i _ _).mpr
+    have : lincomb (1 : ℝ) (lincomb (2 : ℝ) (p2 i) (-(1 : ℝ)) (s.v i)) (σ i / 2) (L i s.x) - p2 i = (σ i) • c i := by
+      simp only [lincomb]; linear_combination (norm := module) (-(1 : ℝ)) • hgv i
+    rw [this, smul_smul, inv_mul_cancel₀ (hσ i), one_smul]; exact hkc i
+  simp only [DrP.step, DrP.half, hm, if_false, ← hS, hp1, hp2]
+  rw [sumAdj_lin, ← hPp, ← hS]
+  have hz1 : lincomb (1 : ℝ) (lincomb (2 : ℝ) p1 (-(1 : ℝ)) s.x) (-τ / 2) ((2 : ℝ) • Pp + (-(1 : ℝ)) • S) = p1 := by
+    simp only [lincomb]; linear_combination (norm := module) (-(1 : ℝ)) • hgx
+  rw [hz1]
+  have hr1 : lincomb (2 : ℝ) p1 (-(1 : ℝ)) (lincomb (2 : ℝ) p1 (-(1 : ℝ)) s.x) = s.x := by
+    simp only [lincomb]; module
+  rw [hr1]
+  refine ⟨by simp only [lincomb]; module, fun i => ?_, trivial⟩
+  rw [hpl i]
+  simp only [lincomb]; module
+end
+
+/-- Non-vacuity with `l`: `f = ½(x−1)²`, `g* = l* = ½v²`, `L = id`, `τ = σ = lam = 1`: the governing pair
+`(x, v) = (4/9, 2/9)` is unchanged by the loop body, which shows `p1 = 2/3`, the minimiser of
+`½(x−1)² + ¼x²` (`g □ l = ¼|·|²`). -/
+example :
+    let P : DrP ℝ ℝ ℝ := ⟨1, fun _ x => x, fun _ y => y, fun v => (v + 1) / 2, fun _ w => w / 2, 1,
+      fun _ => 1, 1, some (fun _ w => w / 2)⟩
+    let s : DrS ℝ ℝ := ⟨4 / 9, fun _ => 2 / 9, 0, []⟩
+    (P.step 0 s).x = s.x ∧ (∀ i, (P.step 0 s).v i = s.v i) ∧ (P.half s).1 = 2 / 3 := by
+  simp only [DrP.step, DrP.half, sumAdj, lincomb, smul_eq_mul, Nat.one_ne_zero, if_false,
+    Nat.sub_self]
+  refine ⟨by norm_num, fun i => by norm_num, by norm_num⟩
